@@ -2,7 +2,7 @@
    allocated data and of the file length; correct at multi-terabyte scale. *)
 From Coq Require Import ZArith List Bool.
 Import ListNotations.
-From DH Require Model.Lru Proofs.Lru Proofs.LruCost.
+From DH Require Model.Lru Proofs.Lru Proofs.LruCost Proofs.LruMulti.
 From DH Require Import Base.Plan Base.Table Model.Walk Model.Io Proofs.Io Proofs.StreamReaders
   Model.Vhd Proofs.Vhd Model.Vdi Proofs.Vdi Model.Vhdx Proofs.Vhdx Model.Hds Proofs.Hds.
 Open Scope Z_scope.
@@ -65,6 +65,24 @@ Theorem C13_tables_loaded_once :
   (length W <= cap)%nat -> incl ks W -> (Proofs.LruCost.lru_misses cap load [] ks <= length W)%nat.
 Proof. intros V cap load W ks. exact (Proofs.LruCost.lru_loads_each_once cap load W ks). Qed.
 Print Assumptions C13_tables_loaded_once.
+
+(* several readers side by side (the extents of one VMDK, the links of a chain), each with its own cache: when every
+   reader's working set fits ITS cache, any interleaving of requests loads each table of each reader at most once — the
+   bound is the sum of the working sets, which may exceed the capacity of any single cache *)
+Theorem C13_tables_loaded_once_per_reader :
+  forall (V : Type) (cap : nat) (load : nat -> Z -> V) (Ws : list (list Z)) (h : list (nat * Z)),
+  Forall (fun W => (length W <= cap)%nat) Ws ->
+  (forall i k, In (i, k) h -> exists W, nth_error Ws i = Some W /\ In k W) ->
+  (Proofs.LruMulti.multi_misses cap load (map (fun _ => []) Ws) h <= Proofs.LruMulti.wtotal Ws)%nat.
+Proof. intros V cap load Ws h. exact (Proofs.LruMulti.multi_loads_each_once cap load Ws h). Qed.
+Print Assumptions C13_tables_loaded_once_per_reader.
+
+(* ... and it is a statement about per-reader caches: the same history through one shared cache of that capacity thrashes *)
+Example C13_shared_cache_thrashes :
+  Proofs.LruMulti.multi_misses 4 (fun i k => (i, k)) [[]; []] Proofs.LruMulti.ex_hist = 6%nat /\
+  Proofs.LruCost.lru_misses 4 (fun k => k) []
+    (map (fun ik => Z.of_nat (fst ik) * 100 + snd ik) Proofs.LruMulti.ex_hist) = 18%nat.
+Proof. split; reflexivity. Qed.
 
 Example C13_cache_capacity_matters :
   Proofs.LruCost.lru_misses 4 (fun k => k) [] [1; 2; 3; 1; 2; 3; 1; 2; 3] = 3%nat /\
